@@ -11,7 +11,7 @@ CONSTANTS
   MaxSuffixLen = 127
   PtrLimit = 16384
   ImplBug = "none"
-  ObjDefect = "opt-summary-kept"
+  ObjDefect = "cache-kept"
 SPECIFICATION MCSpec
 INVARIANTS Acceptable Coherent FlagSound CursorSound CacheSound Effect
 CHECK_DEADLOCK FALSE
